@@ -116,8 +116,11 @@ def pos(rng, w, h, cur=None):
 def title(rng):
     # any byte except BEL, ESC and ST (0x9C) may appear in a title (titleClean); lengths around buffer sizes too
     n = rng.choice([0, 1, 3, 8, 8, 30, 63, 64, 65, 255, 256, 1000])
-    alphabet = [0x20, 0x41, 0x7E, 0xE9, 0x3B, 0x80, 0xFF, 0xC3, 0xA9, 0x00, 0x0A]
-    return [rng.choice(alphabet + [rng.randrange(0x20, 0x7F)]) for _ in range(n)]
+    alphabet = [0x20, 0x41, 0x7E, 0xE9, 0x3B, 0x80, 0xFF, 0xC3, 0xA9]
+    t = [rng.choice(alphabet + [rng.randrange(0x20, 0x7F)]) for _ in range(n)]
+    if t and rng.random() < 0.05:
+        t[rng.randrange(len(t))] = rng.choice([0x00, 0x0A, 0x0D])     # control characters: outside titleClean, tie only
+    return t
 
 
 INPUTS = [b"\x1b[1;2R", b"\x1b[5;10R", b"\x1b[M !!", b"\x1b[M#+5", b"a", b"\r\n", b"\x1b[A", b"\x1b[15~", b"\x1bOP", b"\x9b3;3R", b"\x1b[", b"\x1b[?1;2c", b"\x1b[24;80R"]
